@@ -16,6 +16,7 @@ import Proofs.DmrLookup
 import Proofs.DmrSrc
 import Proofs.DmrQuote
 import Proofs.DmrServerDemo
+import Proofs.DmrReserved
 namespace Pydap.C11
 open Pydap Pydap.Dmr
 
@@ -78,6 +79,77 @@ theorem C11_parse (pre : List (Str × Str)) (name : Str) (s : Spec)
     (hok : s.ok) (hres : refsResolve s) (hv : distinctVars s) (hd : distinctDims s) :
     parseVars (renderRoot pre name s) = .ok (expectVars s) :=
   parseVars_render pre name s hok hres hv hd
+
+/-- **Declared type** — what `dtype := dap4ToNumpy tag` in `expectVar` (hence in `C11_parse`) *is*, against a table
+    written here from the DAP4 specification and not taken from pydap: every variable tag the parser keeps
+    (`varTags`: the atomic types and `String`) has an entry, and the entry is the big-endian numpy type of the declared
+    kind and width (`Byte` = unsigned 8 bit, spelled `B`; `Char` = unsigned 8 bit; `String` = pydap's fixed `|S128`).
+    Complete finite table (regenerated from lib.py on every run). -/
+theorem C11_type_table :
+    (∀ t ∈ varTags, (dap4ToNumpy t).isSome) ∧
+    ∀ d ∈ [("Int8", ">i1"), ("UInt8", ">u1"), ("Byte", "B"), ("Char", ">u1"), ("Int16", ">i2"), ("UInt16", ">u2"),
+           ("Int32", ">i4"), ("UInt32", ">u4"), ("Int64", ">i8"), ("UInt64", ">u8"), ("Float32", ">f4"),
+           ("Float64", ">f8"), ("String", "|S128")],
+      d.1.toList ∈ varTags ∧ dap4ToNumpy d.1.toList = some d.2.toList := by decide
+
+/-- the guard of `C11_parse` spelled out (`Spec.ok` = the property's domain `Spec.ok0` + `Spec.noReserved`): the
+    `_partial` half of the pair.  The guard is slightly wider than the failing class: it also excludes an attribute
+    named `path` on a *root-level* variable, which pydap keeps (example below; covered by the correspondence). -/
+theorem C11_parse_partial (pre : List (Str × Str)) (name : Str) (s : Spec)
+    (hok : s.ok0) (hnr : s.noReserved) (hres : refsResolve s) (hv : distinctVars s) (hd : distinctDims s) :
+    parseVars (renderRoot pre name s) = .ok (expectVars s) :=
+  C11_parse pre name s ((Spec.ok_iff s).mpr ⟨hok, hnr⟩) hres hv hd
+
+/-- the spec of the witness: `<Int32 name="v"><Attribute name="Maps" type="String"><Value>x</Value></Attribute></Int32>` -/
+private def mapsWitness : Spec :=
+  .var ⟨"Int32".toList, "v".toList, [], [⟨"Maps".toList, "String".toList, none, [(true, .str "x".toList)]⟩], []⟩ .nil
+
+/-- … and in a group, an attribute named `path` -/
+private def pathWitness (inGroup : Bool) : Spec :=
+  let v : Spec := .var ⟨"Int32".toList, "v".toList, [],
+    [⟨"path".toList, "String".toList, none, [(true, .str "x".toList)]⟩], []⟩ .nil
+  if inGroup then .group "g".toList v .nil else v
+
+private theorem strAttr_ok (n : Str) : SAttr.ok ⟨n, "String".toList, none, [(true, .str "x".toList)]⟩ := by
+  refine Or.inr (Or.inr ⟨by show "String".toList ∉ atomicTypes; decide, ?_⟩)
+  intro v hv
+  simp only [SAttr.all, Option.toList, List.map, List.nil_append, List.mem_cons, List.not_mem_nil, or_false] at hv
+  exact ⟨_, hv⟩
+
+/-- **The unguarded statement is false** (open finding `C11.reserved_attribute_name`): on the property's own domain
+    (`Spec.ok0`: attribute names unrestricted) parsing does *not* always return the declared records — pydap keeps
+    its own `Maps` entry (and, for members of groups, `path`) in the attributes dict of a variable, so a declared
+    attribute of that name is overwritten.  Witness: a root `Int32 v` with a String attribute `Maps = "x"`; the
+    parsed record has no attribute `Maps` with the value `x`. -/
+theorem C11_parse_refuted :
+    ¬ ∀ (pre : List (Str × Str)) (name : Str) (s : Spec), s.ok0 → refsResolve s → distinctVars s → distinctDims s →
+        parseVars (renderRoot pre name s) = .ok (expectVars s) := by
+  intro h
+  have hok : mapsWitness.ok0 :=
+    ⟨⟨by decide, ⟨by decide, by decide, by decide, by decide⟩,
+      by intro a ha; simp only [List.mem_cons, List.not_mem_nil, or_false] at ha; subst ha; exact strAttr_ok _,
+      by simp⟩, trivial⟩
+  have hres : refsResolve mapsWitness := by
+    intro pv hpv fq sz hm
+    simp only [mapsWitness, specVars, List.mem_cons, List.not_mem_nil, or_false] at hpv
+    subst hpv
+    simp at hm
+  have := h [] "d".toList mapsWitness hok hres (by unfold distinctVars; decide) (by unfold distinctDims; decide)
+  let f : Except Err (List VarRec) → List (List (Str × AttrVal)) := fun r =>
+    match r with | .ok l => l.map VarRec.attrs | .error _ => []
+  have h2 : f (parseVars (renderRoot [] "d".toList mapsWitness)) = f (.ok (expectVars mapsWitness)) := congrArg f this
+  have e1 : f (parseVars (renderRoot [] "d".toList mapsWitness)) = [[]] := by rfl
+  have e2 : f (.ok (expectVars mapsWitness)) = [[("Maps".toList, .one (.str "x".toList))]] := by rfl
+  exact absurd (e1.symm.trans (h2.trans e2)) (by decide)
+
+-- what the parser returns for the two witnesses: the declared attribute is gone
+example : (parseVars (renderRoot [] "d".toList mapsWitness)).map (·.map (·.attrs)) = .ok [[]] := by rfl
+example : (parseVars (renderRoot [] "d".toList (pathWitness true))).map (·.map fun r => (r.path, r.attrs))
+    = .ok [(some "/g".toList, [])] := by rfl
+-- … while a root-level variable keeps an attribute named `path` (inside the guard of `C11_parse`, outside the class)
+example : (parseVars (renderRoot [] "d".toList (pathWitness false))).map (·.map fun r => (r.path, r.attrs))
+    = .ok [(none, [("path".toList, .one (.str "x".toList))])] := by rfl
+example : parseVars (renderRoot [] "d".toList (pathWitness false)) = .ok (expectVars (pathWitness false)) := by rfl
 
 /-- the parser's `_quote` is C12's model; on the names of the domain it is the bytewise map `qn` (C12's `encB`
     per byte), which keeps `/`, never produces one, and is idempotent (`C12_quote_idempotent`) -/
